@@ -243,9 +243,12 @@ def mk_path(orders, name, maxlen, vpots=None, revs=None):
     return p
 
 
-def ensembles(lm1, moves, maxlen0, maxlen1, cap=None, accept_all=False, quantis=False):
+def ensembles(lm1, moves, maxlen0, maxlen1, cap=None, accept_all=False, quantis=False, sc0=None):
     """[0-] and [0+] dicts exactly as REPEX_state.initiate_ensembles builds them (interfaces,
-    start_cond), with one tis_set per ensemble so that the two maxlength reads can differ."""
+    start_cond), with one tis_set per ensemble so that the two maxlength reads can differ.
+    sc0 (None | "R" | "L" | ["L", "R"]): start condition of [0-] set by the caller instead (a caller that builds
+    the ensemble dicts itself, as shoot's own start_cond handling allows: finite left interface with start_cond
+    "R" = paths that leave through lambda_-1 are not members of [0-])."""
     from infretis.classes.repex import REPEX_state
     tis = {"lambda_minus_one": (LM1 if lm1 else False), "maxlength": maxlen0, "accept_all": accept_all,
            "quantis": quantis}
@@ -256,7 +259,16 @@ def ensembles(lm1, moves, maxlen0, maxlen1, cap=None, accept_all=False, quantis=
     REPEX_state.initiate_ensembles(fake)
     e0, e1 = dict(fake.ensembles[0]), dict(fake.ensembles[1])
     e1["tis_set"] = dict(tis, maxlength=maxlen1)
+    if sc0 is not None:
+        e0["start_cond"] = sc0 if isinstance(sc0, str) else list(sc0)
     return e0, e1
+
+
+def allowed_starts(lm1, sc0=None):
+    """the sides a [0-] path may start on: the ensemble's own start condition"""
+    if sc0 is not None:
+        return set(sc0)
+    return {"L", "R"} if lm1 else {"R"}
 
 
 # --------------------------------------------------------------------------- encoding
@@ -339,6 +351,8 @@ class Case:
     def __init__(self, **kw):
         self.quantis = kw.get("quantis", False)
         self.lm1 = kw.get("lm1", False)
+        sc0 = kw.get("sc0")             # start condition of [0-] when not the one initiate_ensembles gives
+        self.sc0 = sc0 if sc0 is None or isinstance(sc0, str) else list(sc0)
         self.moves = kw.get("moves", ("sh", "sh"))
         self.maxlen0 = kw["maxlen0"]
         self.maxlen1 = kw.get("maxlen1", self.maxlen0)
@@ -361,7 +375,7 @@ class Case:
 def run_impl(case, TapeEngine, shim):
     """Run the real code on a case.  Returns (canonical answer, raw dict for the oracle, request line)."""
     import infretis.core.tis as tis
-    e0, e1 = ensembles(case.lm1, case.moves, case.maxlen0, case.maxlen1, case.cap, case.accept_all, case.quantis)
+    e0, e1 = ensembles(case.lm1, case.moves, case.maxlen0, case.maxlen1, case.cap, case.accept_all, case.quantis, case.sc0)
     old0 = mk_path(case.old0, "old0", case.maxlen0, case.v0)
     old1 = mk_path(case.old1, "old1", case.maxlen1, case.v1)
     tape = Tape(case.script, case.energies)
@@ -527,17 +541,34 @@ def orders_of(p):
     return [s.order[0] for s in p.phasepoints]
 
 
-def valid_minus(orders, lm1):
+def valid_minus(orders, lm1, sc0=None):
     """valid [0-] path w.r.t. the code's operators: classified start/end, interior not beyond the
-    interfaces (the stop rule of add_to_path did not fire)."""
+    interfaces (the stop rule of add_to_path did not fire); the start side is one the ensemble's own
+    start condition allows."""
     left = LM1 if lm1 else float("-inf")
     if len(orders) < 3:
         return False
     st = "L" if orders[0] <= left else ("R" if orders[0] >= L0 else "?")
     en = "L" if orders[-1] <= left else ("R" if orders[-1] >= L0 else "?")
-    if en != "R" or st not in (("L", "R") if lm1 else ("R",)):
+    if en != "R" or st not in allowed_starts(lm1, sc0):
         return False
     return all(left <= o <= L0 for o in orders[1:-1])
+
+
+def start_side_error(case, g0):
+    """'valid in its ensemble', start condition: the new [0-] path g0 (complete: its first frame is strictly
+    outside [lambda_-1, lambda_0]) must start on a side the [0-] ensemble's OWN start condition allows.
+    Returns a description or None."""
+    left = LM1 if case.lm1 else float("-inf")
+    if not g0:
+        return None
+    side = "L" if g0[0] < left else ("R" if g0[0] > L0 else None)
+    allowed = allowed_starts(case.lm1, case.sc0)
+    if side is None or side in allowed:
+        return None
+    where = f"left of lambda_-1 = {left}" if side == "L" else f"right of lambda_0 = {L0}"
+    return (f"new [0-] path {g0} starts {where} (side {side}), but the [0-] ensemble only admits paths that start on "
+            f"{sorted(allowed)} (its start_cond, interfaces ({left}, {L0}))")
 
 
 def valid_plus(orders):
@@ -625,7 +656,7 @@ def limits_domain(case, raw):
     if "wf" in case.moves or min(case.maxlen0, case.maxlen1) < 2:
         return False
     o0, o1 = list(case.old0), list(case.old1)
-    if not (valid_minus(o0, case.lm1) and valid_plus(o1)):
+    if not (valid_minus(o0, case.lm1, case.sc0) and valid_plus(o1)):
         return False
     if not case.quantis:
         return True
@@ -652,9 +683,14 @@ def limits_domain(case, raw):
 
 def expected_by_limits(case, new0, new1):
     """status the statement prescribes: a new path that cannot be completed below ITS OWN limit rejects the
-    swap (BTX for [0-], which is built first, FTX for [0+]); otherwise the swap is accepted."""
+    swap (BTX for [0-], which is built first, FTX for [0+]); a complete new [0-] path that starts on a side the
+    [0-] ensemble's own start condition does not allow is not a member of [0-] and rejects the swap ("0-L" when it
+    left through lambda_-1, as shoot answers; "REJ" = any rejection when it starts on the right of an ensemble that
+    only admits starts on the left: no status code is prescribed for that); otherwise the swap is accepted."""
     if new0 is None or len(new0) >= case.maxlen0:
         return "BTX"
+    if start_side_error(case, new0):
+        return "0-L" if new0[0] < L0 else "REJ"
     if new1 is None or len(new1) >= case.maxlen1:
         return "FTX"
     return "ACC"
@@ -709,12 +745,19 @@ def limits_oracle(case, raw):
                 return f"{var} zero swap with {lim}: ACCEPTED with a new [0+] path of {len(g1)} frames, not below the [0+] limit {ml1}: {g1}"
             if not all(inside0[0] <= o <= inside0[1] for o in g0[1:-1]) or not g0[-1] >= L0:
                 return f"{var} zero swap with {lim}: ACCEPTED new [0-] path {g0} is not a [0-] path (interior outside the interfaces or end not on the right)"
+            serr = start_side_error(case, g0)
+            if serr:
+                return (f"{var} zero swap with {lim}: ACCEPTED although the {serr}: the new [0-] path is not valid in its own ensemble "
+                        f"(old paths {list(case.old0)} / {list(case.old1)}, start_cond of [0-] {raw['e0']['start_cond']!r}, of [0+] {raw['e1']['start_cond']!r})")
             if not all(L0 <= o <= LN for o in g1[1:-1]) or not g1[0] <= L0:
                 return f"{var} zero swap with {lim}: ACCEPTED new [0+] path {g1} is not a [0+] path (interior outside the interfaces or start not on the left)"
-            if exp != "ACC":
+            if exp in ("BTX", "FTX"):
                 which = "[0-]" if exp == "BTX" else "[0+]"
                 return (f"{var} zero swap with {lim}: ACCEPTED although the new {which} path cannot be completed below the {which} limit "
                         f"(expected rejection {exp}); {need}; returned {g0} / {g1}")
+            if exp != "ACC":
+                return (f"{var} zero swap with {lim}: ACCEPTED although the complete new [0-] path would start on a side its own ensemble's "
+                        f"start condition {raw['e0']['start_cond']!r} does not allow (expected rejection {exp}); {need}; returned {g0} / {g1}")
             if g0 != [float(x) for x in new0] or g1 != [float(x) for x in new1]:
                 return f"{var} zero swap with {lim}: accepted paths {g0} / {g1} are not the complete paths the runs give; {need}"
             if status != "ACC" or p0.status != "ACC" or p1.status != "ACC":
@@ -723,6 +766,15 @@ def limits_oracle(case, raw):
         if exp == "ACC":
             return (f"{var} zero swap with {lim}: REJECTED with status {status} although both new paths are valid and below their own "
                     f"limits (two swaps cannot restore the originals): {need}")
+        if exp == "REJ":
+            return None                 # rejected, as the statement demands; no status code prescribed
+        if exp == "0-L":
+            if status != "0-L" or p0.status != "0-L":
+                return (f"{var} zero swap with {lim}: the complete new [0-] path leaves through lambda_-1 = {LM1} and start_cond of [0-] is "
+                        f"{raw['e0']['start_cond']!r}: the swap must be rejected with 0-L (as shoot does) but the status is {status} / {p0.status}; {need}")
+            if orders_of(p0) != [float(x) for x in new0]:
+                return f"{var} zero swap with {lim}: rejected 0-L but the returned new [0-] path {orders_of(p0)} is not the complete path; {need}"
+            return None
         if status != exp:
             which = "[0-]" if exp == "BTX" else "[0+]"
             return (f"{var} zero swap with {lim}: the new {which} path cannot be completed below the {which} limit, the swap must be "
@@ -763,10 +815,15 @@ def _oracle(case, raw):
         return f"accept={acc} but status={status}"
     # early 0-L reject: no propagation, old paths returned
     if case.lm1 and not case.quantis and o0 and o0[-1] <= LM1:
+        if allowed_starts(case.lm1, case.sc0) != {"L", "R"}:
+            # finite left interface without the lambda_-1 start condition: rejected without propagation (no status prescribed)
+            if acc or tape.ncalls != 0:
+                return f"[0-] path ending on the left must be rejected without propagation (status {status}, accept={acc}, {tape.ncalls} propagate calls)"
+            return None
         if status != "0-L" or acc or tape.ncalls != 0 or p0 is not old0 or p1 is not old1:
             return f"[0-] path ending on the left must be rejected as 0-L without propagation (status {status}, {tape.ncalls} propagate calls)"
         return None
-    both_valid = valid_minus(o0, case.lm1) and valid_plus(o1)
+    both_valid = valid_minus(o0, case.lm1, case.sc0) and valid_plus(o1)
     if acc:
         n0, n1 = orders_of(p0), orders_of(p1)
         # junction
@@ -803,8 +860,12 @@ def _oracle(case, raw):
             return f"accepted [0-] path starts/ends on the left: {n0}"
         honest = all(s[0] is None for s in case.script)
         if both_valid and honest:
-            if e0 != "R" or s0 not in (("L", "R") if case.lm1 else ("R",)):
-                return f"accepted [0-] path {n0} has start/end {s0}/{e0}"
+            if e0 != "R" or s0 not in allowed_starts(case.lm1, case.sc0):
+                return (f"accepted [0-] path {n0} has start/end {s0}/{e0} w.r.t. its own interfaces {tuple(raw['e0']['interfaces'])}; the [0-] ensemble "
+                        f"admits starts on {sorted(allowed_starts(case.lm1, case.sc0))} (its start_cond {raw['e0']['start_cond']!r}) and ends on R")
+            serr = start_side_error(case, n0)
+            if serr:
+                return f"accepted swap: the {serr}"
             if not all(left <= o <= L0 for o in n0[1:-1]):
                 return f"accepted [0-] path {n0} leaves [{left},{L0}] in its interior"
             if not (n0[0] < left or n0[0] > L0):
@@ -1011,6 +1072,86 @@ def gen_limits(ctx, rng):
                             cases.append(c)
                             tally("quantis", c, new0, new1)
     return cases
+
+
+# ---- finite lambda_-1 for [0-] with the three start conditions a caller can give [0-]
+SC0S = ("R", "L", ["L", "R"])
+# scripted backward dynamics from the first [0+] frame (orders after the engine's own first frame): they end LEFT of
+# lambda_-1, RIGHT of lambda_0, or never leave [lambda_-1, lambda_0] on the tape (the run is cut off by the length limit)
+SC_BACK = {"left": [[-1], [1, -1], [1, LM1, -1], [LM1, 1, 1, -2]],
+           "right": [[3], [1, 3], [1, LM1, 1, 3]],
+           "never": [[1] * 14, [LM1, 1] * 7]}
+SC_FORW = [[1], [3, 1], [LN, 6], [3] * 14]
+SC_OLD0 = {"R": [(3, 1, 3), (3, LM1, 1, 3)], "L": [(-1, 1, 3), (LM1, 1, 1, 3)], "LR": [(3, 1, 3), (-1, LM1, 1, 3)]}
+SC_OLD1 = [(1, 3, 1), (1, LN, 3, 6), (LM1, 3, 1)]
+# levels of theory of the QuanTIS scenarios: (name, betas, V0(r0), V0(r1), V1(r1), V1(r0), draw, accept_all);
+# exponent = beta0 * (V0(r0) - V0(r1)) - beta1 * (V1(r0) - V1(r1))
+SC_THEORY = [("one level of theory (V0 = V1, E = 1)", (1.0, 1.0), 0.25, 0.5, 0.5, 0.25, 0.5, False),
+             ("two levels of theory, E = 1", (0.5, 2.0), 1.0, 0.5, 0.0, 0.125, 0.999, False),
+             ("two levels of theory, exponent -1/2, draw below E", (1.0, 0.5), 0.0, 0.5, 0.25, 0.25, 0.5, False),
+             ("two levels of theory, exponent -1/2, draw above E", (1.0, 0.5), 0.0, 0.5, 0.25, 0.25, 0.75, False),
+             ("two levels of theory, exponent -1/2, draw above E, accept_all", (1.0, 0.5), 0.0, 0.5, 0.25, 0.25, 0.75, True)]
+
+
+def gen_start_cond(ctx, rng):
+    """Finite left interface lambda_-1 for [0-] with start conditions "R", "L" and ["L", "R"] (a caller building the
+    ensemble dicts itself; infretis' own set-up gives a finite lambda_-1 only together with ["L", "R"]), retis and
+    QuanTIS (one and two levels of theory), scripted backward dynamics from the first [0+] frame that end left of
+    lambda_-1, right of lambda_0, or run out of length, x forward patterns x limits around the needed lengths.
+    The outcome is fixed by the statement (limits_oracle): accepted iff both complete new paths are below their own
+    limits AND the new [0-] path starts on a side the [0-] ensemble's own start condition allows."""
+    cases = []
+    stats = {}
+    for sc0 in SC0S:
+        key = sc0 if isinstance(sc0, str) else "LR"
+        for a in SC_OLD0[key]:
+            for b in SC_OLD1:
+                for ends, streams in SC_BACK.items():
+                    for bs in streams:
+                        for fs in SC_FORW:
+                            variants = [dict(script=[(None, bs), (None, fs)])]
+                            for name, betas, v0r0, v0r1, v1r1, v1r0, u, acc_all in SC_THEORY:
+                                v0 = [0.0] * len(a)
+                                v0[-2] = v0r0
+                                v1 = [0.0] * len(b)
+                                v1[0] = v1r1
+                                variants.append(dict(quantis=True, v0=v0, v1=v1, betas=betas, draws=(u,), accept_all=acc_all,
+                                                     script=[(None, [3]), (None, [3]), (None, bs), (None, fs)],
+                                                     energies=[[v0r1, 0.0], [v1r0, 0.0], None, None]))
+                            for var in variants:
+                                base = dict(lm1=True, sc0=sc0, old0=a, old1=b, **var)
+                                probe = Case(maxlen0=BIG_LIMIT, maxlen1=BIG_LIMIT, **base)
+                                new0, new1 = expected_new_paths(probe)
+                                n0 = None if new0 is None else len(new0)
+                                n1 = None if new1 is None else len(new1)
+                                lims = {(BIG_LIMIT, BIG_LIMIT)}
+                                if n0 is not None:
+                                    lims |= {(n0, BIG_LIMIT)}
+                                    if n1 is not None:
+                                        lims |= {(n0 + 1, n1 + 1), (n0 + 1, n1)}
+                                else:
+                                    lims |= {(8, BIG_LIMIT), (BIG_LIMIT, 4)}
+                                for ml0, ml1 in sorted(lims):
+                                    if min(ml0, ml1) < 2 or max(ml0, ml1) > BIG_LIMIT:
+                                        continue
+                                    c = Case(maxlen0=ml0, maxlen1=ml1, direct=(ml0 + ml1 + len(bs)) % 3 == 0, **base)
+                                    cases.append(c)
+                                    mv = "quantis" if c.quantis else "retis"
+                                    exp = expected_by_limits(c, new0, new1)
+                                    ctx.dist(f"{mv} finite lambda_-1, start_cond of [0-] {key}: backward run ends {ends}")
+                                    ctx.dist(f"{mv} finite lambda_-1, start_cond of [0-] {key}: statement demands {exp}")
+                                    stats[(mv, exp)] = stats.get((mv, exp), 0) + 1
+        # the one-step crossing conditions fail / the old [0-] path ended on the left
+        for a, b, s0, s1 in (((3, 1, 3), (1, 3, 1), [1], [3]), ((3, 1, 3), (1, 3, 1), [3], [1]), ((3, 1, -1), (1, 3, 1), [3], [3]),
+                             ((-1, 1, -1), (1, 3, 1), [3], [3]), ((3, 1, LM1), (1, 3, 1), [3], [3])):
+            for bs in ([1, -1], [1, 3]):
+                cases.append(Case(quantis=True, lm1=True, sc0=sc0, maxlen0=9, old0=a, old1=b, v0=[0.0] * len(a), v1=[0.0] * len(b),
+                                  script=[(None, s0), (None, s1), (None, bs), (None, [3, 1])],
+                                  energies=[[0.0, 0.0], [0.0, 0.0], None, None], draws=(0.5,)))
+                cases.append(Case(lm1=True, sc0=sc0, maxlen0=9, old0=a, old1=b, script=[(None, bs), (None, [3, 1])]))
+                ctx.dist(f"finite lambda_-1, start_cond of [0-] {key}: one-step conditions fail / old [0-] path ends on the left", 2)
+    ctx.cov["start_cond_family"] = {"cases": len(cases), "statement_demands": {f"{mv} {exp}": n for (mv, exp), n in sorted(stats.items())}}
+    return cases, stats
 
 
 def gen_wf(ctx, rng, n):
@@ -1725,6 +1866,28 @@ def real_files_stage(ctx):
                       {"kind": "real_files_coverage", "not_evaluated": skipped[:4]}, False)
 
 
+# Recorded finding (not repaired; theorem C11_start_cond_L_only_refuted): see known_start_cond_L
+KNOWN_START_L = ("zero swap with a [0-] ensemble whose start condition is 'L' ALONE (finite lambda_-1; a set-up only a caller that builds the "
+                 "ensemble dicts itself can give: infretis creates 'R' and ['L', 'R']): retis_swap_zero and quantis_swap_zero both accept a "
+                 "new [0-] path that starts on the RIGHT of lambda_0, a side that start condition does not allow (their guard only tests for a "
+                 "forbidden 'L': '\"L\" not in start_cond and \"L\" in check_interfaces(...)[:2]'; shoot rejects such a path with BWI); witness: "
+                 "interfaces (0, 1, 2) / (2, 2, 5), old paths -1 1 3 / 0 3 1, backward run 0 3 -> accepted new [0-] path 3 0 3; "
+                 "theorem C11_start_cond_L_only_refuted; with start conditions 'R' and ['L', 'R'] the new [0-] path always starts on an allowed "
+                 "side (C11_swap_valid, C11_quantis_valid_minus)")
+
+
+def known_start_cond_L(case, raw, err):
+    """EXACTLY the recorded class: the start condition of [0-] is "L" alone, the swap was accepted, the new [0-] path
+    starts on the right of lambda_0, and nothing else of the statement fails (the oracle is silent when the same
+    answer is judged with the start condition ["L", "R"])."""
+    if not err or allowed_starts(case.lm1, case.sc0) != {"L"} or raw["error"] or raw["bad_answer"] or not raw["accept"]:
+        return False
+    g0 = orders_of(raw["paths"][0])
+    if not g0 or not g0[0] > L0:
+        return False
+    return oracle(Case(**dict(case.desc(), sc0=["L", "R"])), raw) is None
+
+
 def case_size(c):
     return (len(c.old0) + len(c.old1) + sum(len(r) for _, r in c.script if r is not None), int(c.quantis), len(c.moves) and int("wf" in c.moves))
 
@@ -1733,8 +1896,18 @@ def case_size(c):
 
 
 def run(ctx):
+    import time
+    phases = ctx.cov["phase_wall_s"] = {}
+    tph = [time.time()]
+
+    def phase(name):
+        now = time.time()
+        phases[name] = round(phases.get(name, 0.0) + now - tph[0], 1)
+        tph[0] = now
+
     common.proof_stage(ctx, "C11", ["extract/c11.vo"])
     runner = common.runner_stage(ctx, "c11")
+    phase("proofs + runner build (incl. waiting for the build lock)")
     if runner is None:
         return
     import logging
@@ -1753,6 +1926,12 @@ def run(ctx):
         ctx.cov["variant"] = variant_report()
         cases = []
         cases += gen_limits(ctx, rng)
+        sc_cases, sc_stats = gen_start_cond(ctx, rng)
+        cases += sc_cases
+        for mv in ("retis", "quantis"):
+            if sc_stats.get((mv, "0-L"), 0) < 50 or sc_stats.get((mv, "ACC"), 0) < 50:
+                ctx.violation(f"start-condition family: fewer than 50 {mv} cases in which the statement demands 0-L / ACC (generator broken)",
+                              {"kind": "start_cond_coverage", "stats": {f"{m} {e}": n for (m, e), n in sc_stats.items()}}, False)
         cases += gen_retis_grid(ctx, rng)
         cases += gen_retis(ctx, rng, 5 if quick else 6, 1 if quick else 2, 12000 if quick else 150000)
         cases += expand_wf(ctx, gen_wf(ctx, rng, 0), TapeEngine, shim)
@@ -1762,6 +1941,10 @@ def run(ctx):
         for c in cases:
             ans, raw, req = run_impl(c, TapeEngine, shim)
             err = oracle(c, raw)
+            if known_start_cond_L(c, raw, err):
+                ctx.known(KNOWN_START_L)
+                ctx.dist(f"{'quantis' if c.quantis else 'retis'} recorded finding: start_cond of [0-] 'L' alone, accepted new [0-] path starts on the right")
+                err = None
             reqs.append(req)
             metas.append((ans, err, c))
             var = "quantis" if c.quantis else "retis"
@@ -1769,7 +1952,9 @@ def run(ctx):
                 ctx.dist(f"{var} status {raw['status']}")
             else:
                 ctx.dist(f"{var} status <{raw['error']}>")
+        phase("scripted cases on the implementation + oracle")
         outs = runner.run(reqs)
+        phase("extracted model on the scripted cases")
         corr_fail = 0
         oracle_fail, corr_bad = [], []
         for req, mo, (io, err, c) in zip(reqs, outs, metas):
@@ -1838,8 +2023,10 @@ def run(ctx):
         if nds - nds2 < 50 or nds2 < 200:
             ctx.violation("double-swap oracle evaluated on fewer than 50 one-engine / 200 two-engine cases (generator broken)",
                           {"evaluated": nds, "two_engines": nds2}, False)
+        phase("double swaps with reversible engines")
         # every retis swap of the double swaps against the extracted model (paths, statuses, calls incl. engine identities)
         ds_outs = runner.run([e[0] for e in ds_log])
+        phase("extracted model on the double swaps")
         ds_bad = [(r, mo, io, d) for (r, io, d, failed), mo in zip(ds_log, ds_outs) if mo != io and not failed]
         for e in ds_log:
             ctx.count(e[0], nontrivial=True)
@@ -1859,6 +2046,7 @@ def run(ctx):
 
     # zero swaps run by two real file-writing engine objects in one shared worker directory (oracle only)
     real_files_stage(ctx)
+    phase("real-file swaps")
 
     ctx.cov["rule"] = ("lock-step: [0-] paths over alphabet {-1,0,1,2,3} and [0+] paths over {1,2,3,5,6} (interfaces lambda_-1=0, lambda_0=2, lambda_N=5), "
                        "lengths 3..%d, all/sampled pairs (see pair_sampling) x seeded choice of backward/forward stream pattern and length limit "
@@ -1923,7 +2111,10 @@ def replay(doc):
         finally:
             tis.np = saved
         print("implementation now answers:", ans)
-        print("oracle:", oracle(c, raw))
+        err = oracle(c, raw)
+        print("oracle:", err)
+        if known_start_cond_L(c, raw, err):
+            print("this input belongs to the recorded finding (reported as KNOWN-FINDING, not as a violation):", KNOWN_START_L)
         r = common.Runner("c11")
         print("model now answers:        ", r.run([req])[0])
         return 0
